@@ -220,6 +220,10 @@ def cases(draw):
         pats = [pre + a + '/' + draw(st.sampled_from(tails)),
                 pre + b + '/' + draw(st.sampled_from(tails))] + pats[:1]
         pats = draw(st.permutations(pats))
+    if tree['link'] and draw(st.booleans()):
+        # a pattern whose literal prefix is the symlinked directory itself
+        pats = list(pats) + [tree['link'][0] + '/' + draw(st.sampled_from(
+            ['*', '*.c', '**/*.c', '**', '*/']))]
     anydir = any(p.endswith('/') for p in pats)
     typ = draw(st.sampled_from([None, None, 'f', 'd', '*']))
     extra = draw(st.lists(st.sampled_from(SIMPLE), max_size=2, unique=True))
@@ -363,8 +367,16 @@ def model(case):
     entries = {(): True}
     for p, k in case['tree']['entries']:
         entries[tuple(p.split('/'))] = (k == 'd')
+    mirrored = {}
     if case['tree']['link']:
-        entries[tuple(case['tree']['link'][0].split('/'))] = True
+        L = tuple(case['tree']['link'][0].split('/'))
+        T = tuple(case['tree']['link'][1].split('/'))
+        entries[L] = True
+        # a walk that *starts* at (or below) the link sees the target's
+        # contents under the link's name; a walk from above does not follow it
+        for comps, isdir in list(entries.items()):
+            if comps[:len(T)] == T and len(comps) > len(T):
+                mirrored[L + comps[len(T):]] = isdir
     pats = [split_pattern(p) for p in case['patterns']]
     bases = sorted({tuple(b) for _, b, _ in pats})
     # minimal covering set of bases
@@ -391,8 +403,12 @@ def model(case):
             isdir and filt(comps, isdir) == 'exclude_recursive')
 
     found, must_extra, dontcare = set(), set(), set()
-    for comps, isdir in entries.items():
+    both = list(entries.items()) + [(c, d) for c, d in mirrored.items()
+                                    if c not in entries]
+    for comps, isdir in both:
         cover = [b for b in ubases if comps[:len(b)] == b]
+        if comps in mirrored and comps not in entries:
+            cover = [b for b in cover if b[:len(L)] == L]
         if not cover:
             continue
         b = cover[0]
@@ -422,6 +438,9 @@ def model(case):
                            for g in case['extra']):
             if RANK[f] <= 1 and len(comps) == len(b) + 1:
                 must_extra.add(comps)
+    entries = dict(entries)
+    for c, d in mirrored.items():
+        entries.setdefault(c, d)
     return found, must_extra, dontcare, entries
 
 
